@@ -16,7 +16,7 @@ From Coq Require Import List ZArith Bool Lia.
 From Verif Require Import Base.Bytes Base.BE Wire.TType Wire.WVal Wire.Codec Wire.CodecFacts
   Wire.Schema Wire.Value Wire.Std Wire.StdFacts Wire.Masked Wire.MaskedFacts
   Wire.MaskedPathSet Wire.MaskedRead Wire.MaskedReadFacts Wire.MaskedHalfway Wire.MaskedHalfwayFacts
-  Wire.MaskedOwn Wire.MaskedOwnFacts.
+  Wire.MaskedOwn Wire.MaskedOwnFacts Wire.MaskedReadInit.
 From Verif Require Mask.Path Mask.Desc Mask.Trie Mask.Spec.
 Import ListNotations.
 Open Scope Z_scope.
@@ -240,6 +240,16 @@ Theorem C13_masked_read_any_bytes : forall cfg m e s bs v0,
     read_new (relax e) (relax_s s) (filter_w_mask e m (TRef (s_name s)) w) = Ok v.
 Proof. exact masked_read_any_bytes. Qed.
 Print Assumptions C13_masked_read_any_bytes.
+
+(* the same for EVERY start object (Read into an object that already holds values), wire level *)
+Theorem C13_masked_read_any_init : forall cfg m e s fs0 wfs v0,
+  find_struct e (s_name s) = Some s ->
+  from_wire e s (VStruct fs0) (WStruct wfs) = Ok v0 ->
+  exists v, from_wire_masked cfg m e s (VStruct fs0) (WStruct wfs) = Ok v /\
+            from_wire (relax e) (relax_s s) (VStruct fs0)
+                      (filter_w_mask e m (TRef (s_name s)) (WStruct wfs)) = Ok v.
+Proof. exact masked_read_any_init. Qed.
+Print Assumptions C13_masked_read_any_init.
 
 (* the two halves for every wire value, every type and every selector *)
 Theorem C13_masked_read_total : forall e w t v, from_w e t w = Ok v ->
